@@ -40,6 +40,15 @@ package vm
 //@ ensures[C14.load.own] !old(haskey(vm.loadedCode, cc)) && uf("code.root", *compiler.Code, cc) != cc && old(vm.loadedCode[uf("code.root", *compiler.Code, cc)]) != nil ==> result != nil && same(result.Globals, old(vm.loadedCode[uf("code.root", *compiler.Code, cc)].Globals))
 //@ ensures result != nil && haskey(vm.loadedCode, cc) && vm.loadedCode[cc] == result
 
+// activateFunction runs a function on the code object loadCode answers for the function's own code: the cached one, or
+// one bound to the globals of the function's root code.
+//@ func (*VirtualMachine).activateFunction
+//@ props C14
+//@ assume[args.wf] vm != nil && fn != nil && fn.code != nil && 0 <= fp && fp < 1024
+//@ let croot = uf("code.root", *compiler.Code, fn.code)
+//@ ensures[C14.activate.cached] old(haskey(vm.loadedCode, fn.code)) ==> vm.activeCode == old(vm.loadedCode[fn.code])
+//@ ensures[C14.activate.own] !old(haskey(vm.loadedCode, fn.code)) && croot != fn.code && old(vm.loadedCode[croot]) != nil ==> vm.activeCode != nil && same(vm.activeCode.Globals, old(vm.loadedCode[croot].Globals))
+
 //@ func loadChildCode
 //@ props C14
 //@ requires root != nil && cc != nil
